@@ -69,6 +69,8 @@ class ContextService(ServiceWithOperations):
         if len(requested_handles) > 0:
             self._logger.info('_on_get_context_states requested Handles:{}', requested_handles)
         with self._mdib.mdib_lock:
+            # read the version inside the lock, it must belong to the states that are collected here
+            mdib_version_group = self._mdib.mdib_version_group
             if len(requested_handles) == 0:
                 # MessageModel: If the HANDLE reference list is empty, all states in the MDIB SHALL be included in the result list.
                 context_state_containers = list(self._mdib.context_states.objects)
@@ -98,7 +100,7 @@ class ContextService(ServiceWithOperations):
 
         response = data_model.msg_types.GetContextStatesResponse()
         response.ContextState.extend(context_state_containers)
-        response.set_mdib_version_group(self._mdib.mdib_version_group)
+        response.set_mdib_version_group(mdib_version_group)
         response_envelope = self._sdc_device.msg_factory.mk_reply_soap_message(request_data, response)
         return response_envelope
 
